@@ -234,7 +234,7 @@ Definition bt_new (m : metric) (leaf : nat) (X : list pt) : btree :=
   bt_build (length X) m leaf (enumerate X).
 
 (* BallTreeInner::rdistance: reduced distance from the query to the sphere.  [eps] is the safety
-   margin factor of the repaired code (finding F25): margin = (d + radius) * eps * (dim + 4);
+   margin factor of the repaired code (finding F38, commit 23cafd4): margin = (d + radius) * eps * (dim + 4);
    eps = 0 gives the bits of the unrepaired expression dist_to_rdist(max(d - radius, 0)). *)
 Context (eps : F).
 Definition node_bound (m : metric) (q : pt) (t : btree) : F :=
